@@ -230,3 +230,46 @@ mod serde_impls {
         }
     }
 }
+
+
+// ------------------------------------------------------------------ auxiliary element shapes
+// Plain elements: no destructor (so `needs_drop::<(K, V)>()` is false), not `Copy`, with a `Clone`
+// that counts its calls.  Used by `clone_plain`.
+thread_local! {
+    pub static PLAIN_CLONES: std::cell::Cell<(u32, u32)> = const { std::cell::Cell::new((0, 0)) };
+    pub static ZST_SERIALIZED: std::cell::Cell<u32> = const { std::cell::Cell::new(0) };
+}
+#[derive(PartialEq, Debug)]
+pub struct PK(pub u16);
+#[derive(PartialEq, Debug)]
+pub struct PV(pub u16);
+impl Clone for PK {
+    fn clone(&self) -> Self {
+        PLAIN_CLONES.with(|c| c.set((c.get().0 + 1, c.get().1)));
+        PK(self.0)
+    }
+}
+impl Clone for PV {
+    fn clone(&self) -> Self {
+        PLAIN_CLONES.with(|c| c.set((c.get().0, c.get().1 + 1)));
+        PV(self.0)
+    }
+}
+
+/// A zero-sized element whose `Serialize` counts its calls.  Used by `serde_zst`.
+#[derive(PartialEq, Debug)]
+#[allow(dead_code)]
+pub struct Z;
+#[cfg(feature = "serde")]
+impl serde::Serialize for Z {
+    fn serialize<S: serde::Serializer>(&self, s: S) -> Result<S::Ok, S::Error> {
+        ZST_SERIALIZED.with(|c| c.set(c.get() + 1));
+        s.serialize_unit()
+    }
+}
+#[cfg(feature = "serde")]
+impl<'de> serde::Deserialize<'de> for Z {
+    fn deserialize<D: serde::Deserializer<'de>>(d: D) -> Result<Self, D::Error> {
+        <()>::deserialize(d).map(|_| Z)
+    }
+}
